@@ -209,3 +209,29 @@ def quadrature(vc):
 # C05's constructor contract (all three construction routes, both orientations, plain and unit-carrying arguments) - discharged again here.
 from . import c05 as _C5
 contract('C11', 'degrees_of_freedom_set_by_the_constructor', functions=[FR + '.__init__'])(_C5.frame_init)
+
+
+@contract('C11', 'preloaded_frames_start_with_a_sigma_clipped_estimate', functions=[FR + '.__init__', FR + '._update_noise_frame_stats'])
+def preloaded_estimate(vc):
+    """A frame constructed around existing data is not "empty": its noise estimates are the sigma-clipped mean / deviation of that data (so the
+    first add_noise on it re-estimates instead of writing the requested parameters)."""
+    route = 'data'
+    n, T = Int('fchans'), Int('tchans')
+    df, dt, fch1 = Real('df'), Real('dt'), Real('fch1')
+    vc.assume(And(n >= 1, T >= 1, df > 0, dt > 0, fch1 > 0))
+    kw = dict(df=df, dt=dt, fch1=fch1, ascending=True, seed=Int('seed'), t_start=Real('t0'))
+    D = symbolic_array('D', (T, n))
+    if route == 'data':
+        kw.update(data=D)
+    else:
+        kw.update(fchans=n, tchans=T)
+    out = vc.run(lambda: vc.interp.call(classref(vc, FR), [], kw))
+    vc.cover('reachable')
+    vc.ensure(f'C11/Frame.__init__/{route}/exc/none', out.ok)
+    if not out.ok:
+        return
+    F = out.value.fields
+    clipped = L.sigma_clip(vc.interp, F['data'], sigma=3, maxiters=5, masked=False)
+    want_m = L.LIB['numpy.mean'](vc.interp, clipped)
+    want_s = L.LIB['numpy.std'](vc.interp, clipped)
+    vc.ensure('C11/Frame.__init__/data/post/estimates-are-the-sigma-clipped-statistics-of-the-preloaded-data', And(eq(F['noise_mean'], want_m), eq(F['noise_std'], want_s)))
